@@ -224,3 +224,50 @@ CLAIMS["C08"] = dict(
          "are timed with the real clock (never early only). SC memory; bounded instances.",
     design_ref="DESIGN.md §6 C08",
 )
+
+CLAIMS["C01"] = dict(
+    text="Join.tla (the closure epilogue: store the result, Join::trigger's store + take + unpark; join / wait: load, register, "
+         "re-load, park or un-register; is_done pollers) and Sched.tla (coroutines moving between local queues, global queues, "
+         "stealers and the running slot of 2 workers) are checked exhaustively by TLC: join only after done, result present, "
+         "no drop / no duplicate, run once, single residency. The real runtime is explored under the baton at the join.* points "
+         "and at every yield of the target: a target spawned from a thread or from a coroutine, with pooled and custom stack, "
+         "that returns, panics or is cancelled by the environment at any moment, a joiner using is_done / wait / join and a "
+         "second thread polling is_done through the same handle. A second, un-gated scenario spawns 40-60 coroutines from "
+         "every site (thread, coroutine, builder with name / stack size / id, scoped) on 1, 3 and 8 workers, yielding and "
+         "sleeping. Oracle: closure executed exactly once, never resident on two OS threads at once, completion never "
+         "reported before the closure (incl. its captured values' owner) has finished, join() = the value, the panic payload "
+         "or Cancel, captured value dropped once, no hang.",
+    note="The run queues themselves are decided by C03/C04 (their points are not gated here: worker threads are not actors); the "
+         "work_steal-off configuration is a compile-time feature and is not built by this check; SC memory; bounded instances.",
+    design_ref="DESIGN.md §6 C01",
+)
+
+CLAIMS["C17"] = dict(
+    text="IoWait.tla (the caller's clear-flag / non-blocking syscall / re-check / yield, the kernel side's store + re-check, the "
+         "selector's fetch_or + take, readiness edges arriving at any moment) and Stream.tla (byte stream through a bounded "
+         "kernel buffer with arbitrary chunking) are checked exhaustively by TLC: no missed edge, everything delivered, prefix "
+         "order, EOF only at the end. The real UnixStream read path runs under the baton at that granularity: the reader "
+         "coroutine (io.* points), the kernel side of its yields (iosub.*, an actor of its own), the event loop of the worker "
+         "that serves the socket (a passive actor stopped at sel.or_flag / sel.take) and a peer thread that writes chunks, "
+         "pauses and closes; the reader is kept off the selector's worker so that both really run concurrently. A second, "
+         "un-gated scenario moves payloads of several socket buffers over TCP loopback and Unix streams (random chunkings "
+         "and buffer sizes, 3-12 connections, coroutine and thread readers) and datagrams over UDP / Unix datagram sockets. "
+         "Oracle: bytes received = bytes sent (position-dependent pattern), read returns 0 only after the peer closed, datagram "
+         "sizes and content, the reader never stays suspended while the kernel has data or EOF for it, no panic on a runtime thread.",
+    note="Only the read side is explored at step granularity (write / accept / connect share the protocol and are exercised by the "
+         "bulk scenario); the first optimistic syscall of CoIo::read has no hook (it is atomic with the preceding scenario point).",
+    design_ref="DESIGN.md §6 C17",
+)
+CLAIMS["C18"] = dict(
+    text="IoTimerRace.tla models the hand-over between an expiring io timer (owner worker: pop the entry, handler takes the "
+         "timer cell and the coroutine) and an early completion taken on another thread (take the coroutine, the timer cell, "
+         "null the entry's data, remove): TLC shows the counter-example of the pinned tree (known finding F15). The real "
+         "UnixStream read with a time-out runs under the baton on the virtual clock (io timers are fired by the worker's event "
+         "loop, which is made to look at the clock after every Tick): time-out then data, data in time, a stale timer left by "
+         "an early completion followed by a longer wait, a cancel of a blocked and of a timed read. Oracle: TimedOut only with "
+         "a time-out set and no earlier than it, the stream content, no early failure of a later read, a cancelled reader ends "
+         "and its socket is closed (the peer sees it), nobody stays suspended, no panic on a runtime thread.",
+    note="Known finding F15 (two signatures) is reported as KNOWN-FINDING: the scenario process has to be restarted after it, the "
+         "exploration goes on with the next seed. accept / connect time-outs are not covered.",
+    design_ref="DESIGN.md §6 C18",
+)
